@@ -26,6 +26,7 @@ mod c02;
 mod c10;
 mod c09;
 mod c04;
+mod c11;
 
 use std::io::{BufRead, Write};
 
@@ -85,6 +86,7 @@ fn lookup(id: &str) -> Option<(&'static str, Gen, Exec)> {
         "C10" => Some(("C10", c10::generate, c10::exec)),
         "C09" => Some(("C09", c09::generate, c09::exec)),
         "C04" => Some(("C04", c04::generate, c04::exec)),
+        "C11" => Some(("C11", c11::generate, c11::exec)),
         _ => None,
     }
 }
